@@ -521,8 +521,9 @@ def _add_construct_kind(b, rng, params, cfg, level, kind):
             cases.append([lab, top])
             labels.append(lab)
         table = list(labels)
-        if cfg.get('unknown_label') and rng.random() < 0.25:
-            table.append('UNK')
+        if cfg.get('unknown_label') and rng.random() < 0.3:
+            # a label without a case: a foreign string, or what a careless decider returns (None, 0, '')
+            table.append(rng.choice(['UNK', 'UNK', None, None, 0, '']))
         d = b.new(b.in_params(dsrc), public=(shared or cfg.get('public_deciders')) and rng.random() < 0.6,
                   value={'labels': table})
         if d in b.public:
@@ -602,7 +603,7 @@ def gen_hub(rng, faults=True, n_max=10, **kw):
     decider = 'main_decider' in roles or 'cand_decider' in roles
     hub_attrs = {}
     if decider:
-        hub_attrs['value'] = {'labels': ['L0', 'L1'] if rng.random() < 0.8 else ['L0', 'L1', 'UNK']}
+        hub_attrs['value'] = {'labels': ['L0', 'L1'] if rng.random() < 0.75 else ['L0', 'L1', rng.choice(['UNK', None, 0])]}
     elif kind == 'none':
         hub_attrs['value'] = rng.choice(['none', 'zero', 'empty'])
     hub = b.new(b.in_params(b.pick(rng.choice([1, 1, 2]))), **hub_attrs)
@@ -682,14 +683,15 @@ CFG = {
     'switch': {'name': 'switch', 'constructs': ['switch'], 'shared': False, 'p_nest': 0.25, 'max_nest': 2},
     'switch_unk': {'name': 'switch_unk', 'constructs': ['switch'], 'shared': False, 'p_nest': 0.2, 'max_nest': 1,
                    'unknown_label': True},
-    'switch_shared': {'name': 'switch_shared', 'constructs': ['switch'], 'shared': True, 'p_nest': 0.2, 'max_nest': 1},
+    'switch_shared': {'name': 'switch_shared', 'constructs': ['switch'], 'shared': True, 'p_nest': 0.2, 'max_nest': 1,
+                      'unknown_label': True},
     'oneof': {'name': 'oneof', 'constructs': ['oneof'], 'shared': False, 'p_nest': 0.0},
     'oneof_nested': {'name': 'oneof_nested', 'constructs': ['oneof'], 'shared': False, 'p_nest': 0.3, 'max_nest': 2},
     'oneof_shared': {'name': 'oneof_shared', 'constructs': ['oneof'], 'shared': True, 'p_nest': 0.2, 'max_nest': 1},
     'mix_main': {'name': 'mix_main', 'constructs': ['switch', 'oneof'], 'shared': False, 'p_nest': 0.25, 'max_nest': 2,
                  'nest_same_kind': True, 'public_deciders': True, 'unknown_label': True, 'p_read_decider': 0.25},
     'switch_oneof': {'name': 'switch_oneof', 'constructs': ['switch', 'oneof'], 'shared': False, 'p_nest': 0.3,
-                     'max_nest': 2, 'public_deciders': True, 'p_read_decider': 0.2},
+                     'max_nest': 2, 'public_deciders': True, 'p_read_decider': 0.2, 'unknown_label': True},
 }
 for _k, _cfg in CFG.items():
     GENERATORS[_k] = (lambda cfg: (lambda rng, **kw: gen_constructs(rng, cfg, **kw)))(_cfg)
